@@ -27,6 +27,21 @@ class StrEnumLike(str, Enum):
     RED = 'RED'
 
 
+import enum as _enum  # noqa: E402
+
+
+class Perm(_enum.Flag):             # flag enums: combinations of members are values of the enum type too
+    R = 1
+    W = 2
+    X = 4
+    RW = 3                          # a named combination
+
+
+class IPerm(_enum.IntFlag):
+    A = 1
+    B = 2
+
+
 def _run(self):
     WORLD.rec('start', (type(self).__module__, type(self).__qualname__, self.cache_key))
     deps = []
